@@ -24,12 +24,13 @@ def resendBody (env : Env) (sr : Msg → Bool) (m : Msg) : M Unit := do
   if b < 1 || b ≥ c.sess.nextOut then
     if c.state != st_RESENDREQ_AWAITING then stateSet st_ACTIVE else pure ()
   else do
-    let rows := c.journal.recoverOut b e
+    let rows := c.journal.recoverOut b sysMaxsize
     let cur := c.sess.nextOut
     setSeqNum (some b) none
-    let (gfb, gfe) ← resendLoop env sr rows b b
+    let (gfb, gfe) ← resendLoop env sr e rows b b
     M.assert (decide (gfe ≤ cur))
-    if gfb < cur then sendMsg env (gapFillMsg gfb cur) else pure ()
+    let gfe2 := min (e + 1) cur
+    if gfb < gfe2 then sendMsg env (gapFillMsg gfb gfe2) else pure ()
     setSeqNum (some cur) none
     let c2 ← M.get
     if c2.state != st_RESENDREQ_AWAITING then stateSet st_ACTIVE else pure ()
@@ -78,12 +79,13 @@ theorem resendBody_head (env : Env) (sr : Msg → Bool) (m : Msg) (c : Conn) (b 
        if b < 1 || b ≥ c.sess.nextOut then
          if c.state != st_RESENDREQ_AWAITING then stateSet st_ACTIVE else pure ()
        else do
-         let rows := c.journal.recoverOut b e
+         let rows := c.journal.recoverOut b sysMaxsize
          let cur := c.sess.nextOut
          setSeqNum (some b) none
-         let (gfb, gfe) ← resendLoop env sr rows b b
+         let (gfb, gfe) ← resendLoop env sr e rows b b
          M.assert (decide (gfe ≤ cur))
-         if gfb < cur then sendMsg env (gapFillMsg gfb cur) else pure ()
+         let gfe2 := min (e + 1) cur
+         if gfb < gfe2 then sendMsg env (gapFillMsg gfb gfe2) else pure ()
          setSeqNum (some cur) none
          let c2 ← M.get
          if c2.state != st_RESENDREQ_AWAITING then stateSet st_ACTIVE else pure ()) c := by
@@ -98,113 +100,169 @@ theorem resendBody_head (env : Env) (sr : Msg → Bool) (m : Msg) (c : Conn) (b 
 /-- the effective EndSeqNo of `_process_resend` -/
 def effEnd (e0 : Int) : Int := if e0 == 0 then sysMaxsize else e0
 
-/-- the connection after a served request: as before except the outbound rows from `b` on (now the
-frames just sent), the inbound side of `set_seq_num`, and the state excursion -/
-def served (c : Conn) (b : Int) (sent : Rows) : Conn :=
+/-- the journal rows after EndSeqNo (they are put back unsent) -/
+def tailRows (c : Conn) (b e0 : Int) : Rows :=
+  (c.journal.out.range b sysMaxsize).filter fun p => effEnd e0 < p.1
+
+/-- one past the last number the reply covers: `min(EndSeqNo, last sent) + 1`, but not below `b` -/
+def chainEnd (c : Conn) (b e0 : Int) : Int := max b (min (effEnd e0 + 1) c.sess.nextOut)
+
+/-- the connection after a served request: as before except the outbound rows from `b` up to EndSeqNo
+(now the frames just sent), the inbound side of `set_seq_num`, and the state excursion -/
+def served (c : Conn) (b : Int) (sent tail : Rows) : Conn :=
   { c with
     state := if c.state = st_RESENDREQ_AWAITING then st_RESENDREQ_AWAITING else st_ACTIVE
     wasActive := c.wasActive || (c.state != st_RESENDREQ_AWAITING)
-    journal := { out := c.journal.out.below b ++ sent, inb := c.journal.inb.below c.sess.nextIn,
+    journal := { out := c.journal.out.below b ++ sent ++ tail, inb := c.journal.inb.below c.sess.nextIn,
                  outSeq := c.sess.nextOut - 1, inSeq := c.sess.nextIn - 1 } }
 
 theorem resendBody_valid (env : Env) (sr : Msg → Bool) (m : Msg) (c : Conn) (b e0 : Int)
     (hreq : Req m b e0) (hctx : LoopCtx env c) (hinv : OutInv c)
-    (hb1 : 1 ≤ b) (hb2 : b < c.sess.nextOut)
-    (he : e0 = 0 ∨ c.sess.nextOut - 1 ≤ e0) (hmax : c.sess.nextOut - 1 ≤ sysMaxsize) :
+    (hb1 : 1 ≤ b) (hb2 : b < c.sess.nextOut) (hmax : c.sess.nextOut - 1 ≤ sysMaxsize) :
     ∃ sent : Rows,
       resendBody env sr m c =
-        ⟨.ok (), served c b sent,
+        ⟨.ok (), served c b sent (tailRows c b e0),
           sent.map (fun p => Effect.write p.2) ++
             (if c.state = st_RESENDREQ_AWAITING then [] else [.onState st_ACTIVE])⟩ ∧
-      Chain c.sess c.journal.out sr b c.sess.nextOut (sent.map (·.2)) ∧
-      Rows.Sorted (c.journal.out.below b ++ sent) ∧
-      Rows.AllLt c.sess.nextOut (c.journal.out.below b ++ sent) ∧
+      Chain c.sess c.journal.out sr b (chainEnd c b e0) (sent.map (·.2)) ∧
+      Rows.Sorted (c.journal.out.below b ++ sent ++ tailRows c b e0) ∧
+      Rows.AllLt c.sess.nextOut (c.journal.out.below b ++ sent ++ tailRows c b e0) ∧
+      Rows.AllLt (chainEnd c b e0) (c.journal.out.below b ++ sent) ∧
       (∀ p ∈ sent, RowOK p.1 p.2 ∧ b ≤ p.1) := by
   have hcond : (decide (b < 1) || decide (b ≥ c.sess.nextOut)) = false := by
     simp; omega
   rw [resendBody_head env sr m c b e0 hreq hctx.inres.1]
   simp only [hcond, Bool.false_eq_true, if_false]
+  have hJ := hinv.sorted
+  -- the recovered rows: up to EndSeqNo, after EndSeqNo
+  let e : Int := if e0 == 0 then sysMaxsize else e0
+  have heff : effEnd e0 = e := rfl
+  let rs1 : Rows := (c.journal.out.range b sysMaxsize).filter fun p => p.1 ≤ e
+  have hsplit0 : c.journal.out.range b sysMaxsize = rs1 ++ tailRows c b e0 :=
+    Rows.split_at e (Rows.sorted_range hJ _ _)
+  have hrows : c.journal.recoverOut b sysMaxsize = (rs1 ++ tailRows c b e0).map (·.2) := by
+    unfold Journal.recoverOut; rw [hsplit0]
+  have hmem1 : ∀ p ∈ rs1, p ∈ c.journal.out ∧ b ≤ p.1 ∧ p.1 ≤ e := by
+    intro p hp
+    obtain ⟨h1, h2⟩ := List.mem_filter.mp hp
+    obtain ⟨h3, h4, _⟩ := Rows.mem_range.mp h1
+    exact ⟨h3, h4, by simpa using h2⟩
+  have hmem2 : ∀ p ∈ tailRows c b e0, p ∈ c.journal.out ∧ b ≤ p.1 ∧ e < p.1 := by
+    intro p hp
+    obtain ⟨h1, h2⟩ := List.mem_filter.mp hp
+    obtain ⟨h3, h4, _⟩ := Rows.mem_range.mp h1
+    exact ⟨h3, h4, by simpa [heff] using h2⟩
+  have hz : chainEnd c b e0 = max b (min (e + 1) c.sess.nextOut) := rfl
+  have hzb : b ≤ chainEnd c b e0 := by rw [hz]; omega
+  have hzc : chainEnd c b e0 ≤ c.sess.nextOut := by rw [hz]; omega
   -- first set_seq_num
   have e1 := setSeqNum_out b (by omega) c
-  -- the loop
-  have hJ := hinv.sorted
-  have hend : ∀ n, n < c.sess.nextOut → n ≤ (if e0 == 0 then sysMaxsize else e0) := by
-    intro n hn
-    rcases he with h | h
-    · subst h; simp only [beq_self_eq_true, if_true]; omega
-    · split <;> omega
   let c1 : Conn := { c with sess := { c.sess with nextOut := b },
                             journal := c.journal.setSeq b c.sess.nextIn }
   have hctx1 : LoopCtx env c1 := ⟨hctx.inres, hctx.lsender, hctx.ltarget, hctx.lstamp⟩
-  obtain ⟨sent, gfb', gfe', os, e2, ch2, b1, b2, so2, lt2, ok2, no2⟩ :=
-    resendLoop_spec env sr c.journal.out hJ c.sess.nextOut
-      (c.journal.out.range b (if e0 == 0 then sysMaxsize else e0)) b b c1 hctx1 (by omega) (by omega)
-      (by omega) (Rows.sorted_below hJ b) (Rows.allLt_below b _) (Rows.sorted_range hJ _ _)
+  -- the loop
+  obtain ⟨sent, gfb', gfe', os, e2, ch2, b1, b2, so2, lt2, ok2, ge2, no2⟩ :=
+    resendLoop_spec env sr c.journal.out hJ (chainEnd c b e0) e (tailRows c b e0)
+      (fun p hp => ⟨(hmem2 p hp).2.2, hinv.rows p (hmem2 p hp).1⟩)
+      rs1 b b c1 hctx1 (by omega) hzb hzb (Rows.sorted_below hJ b) (Rows.allLt_below b _)
+      (by rw [← hsplit0]; exact Rows.sorted_range hJ _ _)
       (by
         intro p hp
-        obtain ⟨h1, h2, _⟩ := Rows.mem_range.mp hp
-        exact ⟨h2, hinv.lt p h1, h1, hinv.rows p h1⟩)
+        obtain ⟨h1, h2, h3⟩ := hmem1 p hp
+        have := hinv.lt p h1
+        exact ⟨h2, by rw [hz]; omega, h3, h1, hinv.rows p h1⟩)
+      (fun p hp => (hmem2 p hp).2.1)
       (by
         intro n row h1 h2 h3 _
-        exact Rows.mem_range.mpr ⟨h3, h1, hend n h2⟩)
+        have hn := hinv.lt (n, row) h3
+        simp only at hn
+        rw [hz] at h2
+        refine List.mem_filter.mpr ⟨Rows.mem_range.mpr ⟨h3, h1, by simp only; omega⟩, ?_⟩
+        simp only [decide_eq_true_eq]; omega)
   have hle := chain_le ch2
   have hout1 : c1.journal.out = c.journal.out.below b := rfl
-  have hsess1 : c1.sess.nextOut = b := rfl
   rw [hout1] at e2 so2 lt2
-  -- trailing gap fill
-  have hctx3 := hctx1.withOut (c.journal.out.below b ++ sent) os
+  -- trailing gap fill, between the frames sent and the rows put back
+  have hctx3 := hctx1.withOut (c.journal.out.below b ++ sent ++ tailRows c b e0) os
+  have hifeq : (if gfb' < min (e + 1) c.sess.nextOut
+        then sendMsg env (gapFillMsg gfb' (min (e + 1) c.sess.nextOut)) else pure ()) =
+      (if gfb' < chainEnd c b e0 then sendMsg env (gapFillMsg gfb' (chainEnd c b e0)) else pure ()) := by
+    by_cases hbz : b < min (e + 1) c.sess.nextOut
+    · have : chainEnd c b e0 = min (e + 1) c.sess.nextOut := by rw [hz]; omega
+      rw [this]
+    · have hzb' : chainEnd c b e0 = b := by rw [hz]; omega
+      have h1 : ¬ gfb' < min (e + 1) c.sess.nextOut := by omega
+      have h2 : ¬ gfb' < chainEnd c b e0 := by omega
+      rw [if_neg h1, if_neg h2]
   obtain ⟨pre, os3, e3, ch3, so3, lt3, ok3⟩ :=
-    gap_step env sr c.journal.out (withOut c1 (c.journal.out.below b ++ sent) os) gfb' c.sess.nextOut
-      hctx3 (by omega) b1 (by simpa using so2) (by simpa using lt2)
+    gap_step_mid env sr c.journal.out
+      (withOut c1 (c.journal.out.below b ++ sent ++ tailRows c b e0) os) gfb' (chainEnd c b e0)
+      (c.journal.out.below b ++ sent) (tailRows c b e0)
+      hctx3 (by omega) b1 rfl so2 lt2
+      (by
+        intro p hp
+        have h1 := (hmem2 p hp).2.2
+        have h2 := ge2 p hp
+        have h3 := (hmem2 p hp).2.1
+        rw [hz]; omega)
       (by
         intro n row h1 h2 h3
         exact no2 n row h1 h2 ((Rows.find_eq_some_iff hJ _ _).mp h3))
-  simp only [withOut_out, withOut_withOut] at e3 so3 lt3
+  simp only [withOut_withOut] at e3
   -- second set_seq_num
-  have hbelow : (c.journal.out.below b ++ (sent ++ pre)).below c.sess.nextOut =
-      c.journal.out.below b ++ (sent ++ pre) :=
-    Rows.below_of_allLt _ _ (by simpa [List.append_assoc] using lt3)
+  have htail_lt : Rows.AllLt c.sess.nextOut (tailRows c b e0) := fun p hp => hinv.lt p (hmem2 p hp).1
+  have lt4 : Rows.AllLt c.sess.nextOut (c.journal.out.below b ++ (sent ++ pre) ++ tailRows c b e0) := by
+    intro p hp
+    rcases List.mem_append.mp hp with h | h
+    · have := lt3 p (by simpa [List.append_assoc] using h); omega
+    · exact htail_lt p h
+  have hbelow : (c.journal.out.below b ++ (sent ++ pre) ++ tailRows c b e0).below c.sess.nextOut =
+      c.journal.out.below b ++ (sent ++ pre) ++ tailRows c b e0 := Rows.below_of_allLt _ _ lt4
   have hinb : (c.journal.inb.below c.sess.nextIn).below c.sess.nextIn =
       c.journal.inb.below c.sess.nextIn := Rows.below_of_allLt _ _ (Rows.allLt_below _ _)
   let c5 : Conn := { c with journal :=
-    { out := c.journal.out.below b ++ (sent ++ pre), inb := c.journal.inb.below c.sess.nextIn,
+    { out := c.journal.out.below b ++ (sent ++ pre) ++ tailRows c b e0,
+      inb := c.journal.inb.below c.sess.nextIn,
       outSeq := c.sess.nextOut - 1, inSeq := c.sess.nextIn - 1 } }
   have e4 : setSeqNum (some c.sess.nextOut) none
-      (withOut c1 (c.journal.out.below b ++ sent ++ pre) os3) = ⟨.ok (), c5, []⟩ := by
+      (withOut c1 (c.journal.out.below b ++ sent ++ pre ++ tailRows c b e0) os3) = ⟨.ok (), c5, []⟩ := by
     rw [setSeqNum_out c.sess.nextOut (by omega)]
     simp only [c5, c1, withOut, Journal.setSeq, hinb, List.append_assoc]
-    rw [hbelow]
+    rw [show Rows.below b c.journal.out ++ (sent ++ (pre ++ tailRows c b e0)) =
+      Rows.below b c.journal.out ++ (sent ++ pre) ++ tailRows c b e0 by simp [List.append_assoc], hbelow]
   have hlast : (M.get >>= fun c2 =>
       if (c2.state != st_RESENDREQ_AWAITING) = true then stateSet st_ACTIVE else pure ()) c5 =
-      ⟨.ok (), served c b (sent ++ pre),
+      ⟨.ok (), served c b (sent ++ pre) (tailRows c b e0),
         if c.state = st_RESENDREQ_AWAITING then [] else [.onState st_ACTIVE]⟩ := by
     rcases hctx.inres.1 with h | h
     · have hne : c.state ≠ st_RESENDREQ_AWAITING := by rw [h]; decide
       simp [M.bind_apply, h, stateSet, served, c5, st_RESENDREQ_HANDLING, st_RESENDREQ_AWAITING,
         st_ACTIVE]
     · simp [M.bind_apply, h, served, c5]
-  refine ⟨sent ++ pre, ?_, ?_, by simpa [List.append_assoc] using so3,
-    by simpa [List.append_assoc] using lt3, ?_⟩
-  · have hsplit : ∀ (F : M Unit),
-        (if gfb' < c.sess.nextOut then (do sendMsg env (gapFillMsg gfb' c.sess.nextOut); F) else F) =
-          ((if gfb' < c.sess.nextOut then sendMsg env (gapFillMsg gfb' c.sess.nextOut) else pure ())
-            >>= fun _ => F) := by
-      intro F; split <;> rfl
+  refine ⟨sent ++ pre, ?_, ?_, ?_, lt4, ?_, ?_⟩
+  · have hsplit : ∀ (x : M Unit) (F : M Unit),
+        (if gfb' < min (e + 1) c.sess.nextOut then (do x; F) else F) =
+          ((if gfb' < min (e + 1) c.sess.nextOut then x else pure ()) >>= fun _ => F) := by
+      intro x F; split <;> rfl
     have hge : M.assert (decide (gfe' ≤ c.sess.nextOut))
-        (withOut c1 (c.journal.out.below b ++ sent) os) =
-          ⟨.ok (), withOut c1 (c.journal.out.below b ++ sent) os, []⟩ := by
-      have : decide (gfe' ≤ c.sess.nextOut) = true := by simpa using b2
+        (withOut c1 (c.journal.out.below b ++ sent ++ tailRows c b e0) os) =
+          ⟨.ok (), withOut c1 (c.journal.out.below b ++ sent ++ tailRows c b e0) os, []⟩ := by
+      have : decide (gfe' ≤ c.sess.nextOut) = true := by simp; omega
       rw [this]; rfl
-    refine (M.bind_ok2 e1 (M.bind_ok2 e2 (M.bind_ok2 hge ((congrFun (hsplit _) _).trans
-      (M.bind_ok2 e3 (M.bind_ok2 e4 hlast)))))).trans ?_
+    rw [hrows]
+    refine (M.bind_ok2 e1 (M.bind_ok2 e2 (M.bind_ok2 hge ((congrFun (hsplit _ _) _).trans
+      (M.bind_ok2 (by rw [hifeq]; exact e3) (M.bind_ok2 e4 hlast)))))).trans ?_
     simp
   · have := chain_append ch2 ch3
     rw [List.map_append]
     exact chain_sess_congr (s := c1.sess) (s' := c.sess) rfl rfl this
+  · simpa [List.append_assoc] using so3
+  · simpa [List.append_assoc] using lt3
   · intro p hp
     simp only [List.mem_append] at hp
     rcases hp with hp | hp
     · exact ok2 p hp
     · obtain ⟨h1, h2⟩ := ok3 p hp
       exact ⟨h1, by omega⟩
+
 end AsyncFix.Session.C06
